@@ -596,6 +596,66 @@ def gen_recipe(rng: random.Random, *, max_ranks=4, max_comm=6) -> dict:
             g.add_input(r)
         else:
             g.add_op(r)
+    # enrichment moves: relations between communication operations that plain
+    # growth produces only rarely (each keeps the global data flow acyclic: a
+    # new message only creates a new leaf receive used by new values)
+    if nranks > 1 and ncomm > 0:
+        # keep room for two of them (never beyond max_comm messages in total)
+        g.budget = max(g.budget, min(2, max_comm - len(g.comms)))
+    for _ in range(rng.randint(0, 4)):
+        if nranks < 2:
+            break
+        move = rng.choice(["resend", "combine", "store", "relay", "reuse",
+                           "consume"])
+        if move == "resend" and g.comms and g.budget > 0:
+            # the same array sent again: to another peer, or to the same peer
+            # under another tag
+            c = rng.choice(g.comms)
+            dsts = [r for r in range(nranks) if r != c["src"]]
+            g.add_comm(c["src_val"], rng.choice(dsts))
+        elif move == "combine" and g.budget > 0:
+            # one payload computed from two or more receives
+            r = rng.randrange(nranks)
+            recvs = [i for i, v in enumerate(g.vals)
+                     if v["rank"] == r and v["op"] == "recv"]
+            if len(recvs) >= 2:
+                a, b = rng.sample(recvs, 2)
+                ra = g.add_op(r, "sum", [a])
+                rb = g.add_op(r, "sum", [b])
+                if ra is not None and rb is not None:
+                    v = g.add_op(r, rng.choice(["add", "mul", "sub"]), [ra, rb])
+                    if v is not None:
+                        dsts = [q for q in range(nranks) if q != r]
+                        g.add_comm(v, rng.choice(dsts))
+        elif move == "store":
+            # stored arrays in communication-relevant places: payloads,
+            # receives, values computed from receives
+            cands = [c["src_val"] for c in g.comms] \
+                + [c["recv_val"] for c in g.comms]
+            cands += [i for i, v in enumerate(g.vals)
+                      if any(g.vals[a]["op"] == "recv" for a in v["args"])]
+            if cands:
+                g.vals[rng.choice(cands)]["stored"] = True
+        elif move == "relay" and g.comms and g.budget > 0:
+            # received data sent on: unchanged, or after one operation
+            c = rng.choice(g.comms)
+            r = c["dst"]
+            v = c["recv_val"]
+            if rng.random() < 0.5:
+                w = g.add_op(r, rng.choice(["addc", "neg", "mulc"]), [v])
+                v = w if w is not None else v
+            dsts = [q for q in range(nranks) if q != r]
+            g.add_comm(v, rng.choice(dsts))
+        elif move == "reuse" and g.comms:
+            # a payload that is ALSO used locally after the send
+            c = rng.choice(g.comms)
+            g.add_op(c["src"], rng.choice(["addc", "sumb", "neg"]),
+                     [c["src_val"]])
+        elif move == "consume" and g.comms:
+            # a receive consumed by two different local computations
+            c = rng.choice(g.comms)
+            g.add_op(c["dst"], "addc", [c["recv_val"]])
+            g.add_op(c["dst"], "sumb", [c["recv_val"]])
     # leftover budget: plain transfers (receive used only as output / payload)
     while g.budget > 0 and nranks > 1 and rng.random() < 0.5:
         a = rng.randrange(len(g.vals))
